@@ -1030,6 +1030,208 @@ def crash_monitor(op, old, res, ci, allowed_ci):
 
 
 # ---------------------------------------------------------------------------------------------------
+# file-system level crash images, model-free: the directory before and after every file-system call
+# ---------------------------------------------------------------------------------------------------
+METHOD = {"add": "add", "clear": "clear", "delfrom": "deleteEntriesFrom", "delto": "deleteEntriesTo",
+          "setci": "setRaftCommitIndex", "timer": "onOneSecondTimer", "settv": "setTermAndVote"}
+
+
+def no_stored_ci(jm, snap):
+    """the default commit index 1 is admissible after a kill only while none had been stored: no .meta, or a
+    .meta written by setTermAndVote before any setRaftCommitIndex"""
+    return snap[1] is None or meta_value_str(jm, snap[1]) in ("none", "torn")
+
+
+def judge_image(jm, scratch, img, op, old, adm_ci, tv_old):
+    """Verdict of the property statement on one directory image left by a kill inside `op` (`old` =
+    entries before the op): reopen it with the real class and apply crash_monitor + the (term, vote)
+    rule.  A missing journal file is a violation by itself when there were entries: reopening silently
+    creates a fresh empty journal.  Returns None or (signature, what)."""
+    if img[0] is None and old:
+        return ("journal.%s:journal-file-missing-after-kill" % METHOD.get(op[0], op[0]),
+                "the journal file does not exist (a reopen creates a fresh empty journal); it held %d entries %s"
+                % (len(old), short_ents(old)))
+    o = open_image(jm, scratch, img)
+    try:
+        if "err" in o:
+            return ("journal.%s:reopen-raises-after-kill:%s" % (op[0], o["err"]), "reopening raises " + o["err"])
+        m = crash_monitor(op, old, o["ents"], o["ci"], adm_ci)
+        tv_ok = {tuple(tv_old)} | ({(op[1], op[2])} if op[0] == "settv" else set())
+        if m is None and o["tv"] not in tv_ok:
+            m = ("journal.setTermAndVote:lost-or-invented-after-kill",
+                 "(term, vote) after kill+reopen is %r, admissible: %s" % (o["tv"], sorted(tv_ok, key=repr)))
+        return m
+    finally:
+        if "real" in o:
+            o["real"].abandon()
+        remove_files(scratch)
+
+
+def fs_images(real, op):
+    """run `op` on the live journal; returns (primitives, [(n, "before"|"after", prim, directory image)]):
+    the four files as they are right before and right after each file-system call event of the op
+    (stores through the mappings made so far are in the files already)"""
+    imgs = []
+
+    def hook(n, when, prim):
+        imgs.append((n, when, prim, snapshot(real.path)))
+
+    prims = real.apply(op, fs_hook=hook)
+    return prims, imgs
+
+
+def judge_fs_images(jm, scratch, imgs, op, old, adm_ci, tv_old, cov=None):
+    """model-free verdict on every image of fs_images; returns [(signature, what, n, when)]"""
+    out, seen = [], {}
+    events = [x for x in imgs if x[1] == "after"]
+    nev = len(events)
+    if cov is not None:
+        cov.hit("fs_calls." + op[0], nev)
+        if op[0] == "delto":
+            cov.hit("fs.headdrop_calls", nev)
+            befores = set(x[0] for x in imgs if x[1] == "before")
+            cov.hit("fs.headdrop_calls_with_before_and_after", len([e for e in events if e[0] in befores]))
+    for i, (n, when, prim, img) in enumerate(imgs):
+        if cov is not None:
+            cov.hit("fs_images")
+            if (when == "after" and n < nev - 1) or (when == "before" and n > 0):
+                cov.hit("fs_images.between_two_fs_calls_of_one_op")
+        if img in seen:
+            m = seen[img]
+        else:
+            m = seen[img] = judge_image(jm, scratch, img, op, old, adm_ci, tv_old)
+            if cov is not None:
+                cov.hit("fs_images.reopened")
+        if m is not None:
+            nxt = next((x for x in imgs[i + 1:] if x[1] == "before"), None)
+            prv = next((x for x in reversed(imgs[:i + 1]) if x[1] == "after"), None)
+            where = "%s %s (file-system call #%d of %s)" % (when, prim_str_short(prim), n, op[:2])
+            if when == "after" and nxt is not None:
+                where += ", i.e. between it and " + prim_str_short(nxt[2])
+            elif when == "before" and prv is not None:
+                where += ", i.e. between %s and it" % prim_str_short(prv[2])
+            out.append((m[0], "killed %s: %s" % (where, m[1]), n, when))
+    return out
+
+
+def prim_str_short(p):
+    if p[0] == "FS":
+        return "FS:" + ":".join(str(x) for x in p[1:] if not isinstance(x, bytes))
+    return {"JR": "os.remove(<journal>.tmp)", "JC": "open(<journal>.tmp,'wb')", "JW": "write of <journal>.tmp",
+            "JM": "rename(<journal>.tmp -> journal)", "TC": "open(.meta.tmp,'wb')", "TW": "write of .meta.tmp",
+            "TM": "rename(.meta.tmp -> .meta)"}.get(p[0], p[0])
+
+
+class SeqState(object):
+    """model-free bookkeeping while an op sequence runs on a real journal: reference list, commit
+    indices ever set, (term, vote) last stored"""
+
+    def __init__(self):
+        self.ref, self.allowed, self.tv, self.pre = [], set(), (0, None), []
+
+    def note(self, op):
+        ref_apply(self.ref, op)
+        if op[0] == "setci":
+            self.allowed.add(op[1])
+        elif op[0] == "settv":
+            self.tv = (op[1], op[2])
+        self.pre.append(op)
+
+
+def step_plain(jm, real, op, scratch):
+    """advance the real journal by one op of a replay / state-building sequence (no checks);
+    returns the (possibly new) Real, or None when the op is skipped"""
+    if op[0] == "reopen":
+        return reopen(real, op[1])
+    if op[0] == "crashat":
+        op, _ = concretise_crashat(jm, scratch, real, op)
+        return crash_reopen(real, op[1], op[2], op[3])[0]
+    if op[0] == "settv" and not real.has_tv():
+        return None
+    real.apply(op)
+    return real
+
+
+def fs_check_sequence(jm, tmp, ops, factory="FileJournal", cov=None, limit=1):
+    """The fs-level image pass on every op of a sequence, model-free.  Returns a list of violations
+    (each with a replay dict of kind "fs"), at most `limit`."""
+    path, scratch = os.path.join(tmp, "fsj"), os.path.join(tmp, "fsimg")
+    remove_files(path)
+    found = []
+    try:
+        real = Real(jm, path, factory)
+    except Exception:                                   # noqa
+        return found
+    st = SeqState()
+    try:
+        for op in ops:
+            if len(found) >= limit:
+                break
+            op = resolve(op, real.view())
+            if op[0] in ("reopen", "crashat"):
+                real = step_plain(jm, real, op, scratch + "-dry")
+                st.note(op if op[0] == "reopen" else ["crashat"] + list(op[1:]))
+                continue
+            if op[0] == "settv" and not real.has_tv():
+                continue
+            if op[0] == "add" and (op[1] >= U64 or op[2] >= U64):
+                break
+            snap = snapshot(path)
+            old, tv_old = list(st.ref), st.tv
+            if op[0] == "setci":
+                st.allowed.add(op[1])
+            adm = set(st.allowed) | ({1} if no_stored_ci(jm, snap) else set())
+            try:
+                prims, imgs = fs_images(real, op)
+            except Exception:                           # noqa  (reported by the other passes)
+                break
+            for sig, what, n, when in judge_fs_images(jm, scratch, imgs, op, old, adm, tv_old, cov):
+                if sig not in [v["signature"] for v in found]:
+                    found.append({"signature": sig, "what": "%s on %d entries %s" % (METHOD.get(op[0], op[0]), len(old), what),
+                                  "replay": {"kind": "fs", "factory": factory, "pre": [list(o) for o in st.pre], "op": list(op),
+                                             "fs_index": n, "when": when}})
+            st.note(op)
+    finally:
+        real.abandon()
+        remove_files(path)
+        remove_files(scratch + "-dry")
+    return found[:limit]
+
+
+def replay_fs(jm, tmp, rp):
+    """re-run one fs-level crash point with a REAL kill: Killed is raised out of the proxy right before /
+    after file-system call #fs_index of the op, the objects are abandoned, the files copied and reopened.
+    Returns (None | (signature, what), killed?)"""
+    path, scratch = os.path.join(tmp, "fsj"), os.path.join(tmp, "fsimg")
+    remove_files(path)
+    real = Real(jm, path, rp.get("factory", "FileJournal"))
+    st = SeqState()
+    killed = False
+    try:
+        for op in rp.get("pre", []):
+            r = step_plain(jm, real, op, scratch + "-dry")
+            if r is None:
+                continue
+            real = r
+            st.note(op)
+        op = rp["op"]
+        snap = snapshot(path)
+        if op[0] == "setci":
+            st.allowed.add(op[1])
+        adm = set(st.allowed) | ({1} if no_stored_ci(jm, snap) else set())
+        try:
+            real.apply(op, fs_kill=(rp.get("fs_index", 0), rp.get("when", "before")))
+        except Killed:
+            killed = True
+        img = snapshot(path)                # copy first ...
+    finally:
+        real.abandon()                      # ... then release the handles
+        remove_files(path)
+        remove_files(scratch + "-dry")
+    return judge_image(jm, scratch, img, op, st.ref, adm, st.tv), killed
+
+
+# ---------------------------------------------------------------------------------------------------
 # one op sequence on the real code (+ model when given): the `journal_bytes` case runner
 # ---------------------------------------------------------------------------------------------------
 class Cov(dict):
